@@ -109,6 +109,29 @@ Section P.
     all: try (rewrite Nat.eqb_refl in *; discriminate).
   Qed.
 
+  (** ---- Service.running and the machine agree: a service that is not running is in Init,
+      Stopped or Disconnecting -- never connecting, waiting to retry, connected or restarting ---- *)
+  Definition idle_state (m : state) : bool :=
+    match m with Init | Stopped | Disconnecting => true | _ => false end.
+  Definition InvRun (s : st) : Prop := running s = negb (idle_state (ms s)).
+
+  Lemma running_step : forall s o, InvRun s -> InvRun (fst (step s o)).
+  Proof.
+    intros s o HR. unfold InvRun in *.
+    destruct s as [m rn ca cc tm fl aw sw nw ns nw' na nc pd pp cn tt nf]. cbn [running ms] in *.
+    destruct o; destruct m; cbn in HR; subst rn;
+      unfold Model.step, Model.deliver, Model.deliver1, Model.pre, new_stop, cancel_waiters; cbn.
+    all: repeat (break; cbn).
+    all: try reflexivity.
+  Qed.
+
+  Lemma run_running : forall ops s, InvRun s -> InvRun (fst (run s ops)).
+  Proof.
+    induction ops as [|o r IH]; intros s H; cbn [Model.run]; auto.
+    pose proof (running_step s o H) as H1. destruct (step s o) as [s1 e]. cbn [fst] in H1.
+    specialize (IH s1 H1). destruct (run s1 r) as [s2 es]. exact IH.
+  Qed.
+
   (** ---- everything together, for every history ---- *)
   Definition Inv (s : st) (l : list ev) : Prop :=
     InvShape policy s l /\ InvW s l /\ InvS s l /\ InvR s l /\ InvU s l.
@@ -246,6 +269,27 @@ Section P.
       + unfold Model.deliver, Model.deliver1. cbn. repeat split; reflexivity.
       + exfalso. destruct pd as [|x r]; [congruence|]. clear Hp. revert x E.
         induction r as [|y r IH]; intros x E; cbn in E; [discriminate | exact (IH y E)].
+  Qed.
+
+  Lemma stopped_is_idle : forall ops,
+    let s := fst (run init ops) in
+    running s = false ->
+    (ms s = Init \/ ms s = Stopped \/ ms s = Disconnecting)
+    /\ pend s = [] /\ preps s = [] /\ timer s = None
+    /\ (tainted s = false -> ms s <> Disconnecting -> conns s = []).
+  Proof.
+    intros ops s Hr. assert (HR : InvRun s) by (apply run_running; reflexivity).
+    destruct (reach ops) as ((HA & (HT1 & _) & _) & _ & _ & _ & HU). fold s in HA, HT1, HU.
+    unfold InvRun in HR. rewrite Hr in HR.
+    assert (Hm : ms s = Init \/ ms s = Stopped \/ ms s = Disconnecting)
+      by (destruct (ms s); cbn in HR; try discriminate; auto).
+    split; [exact Hm|].
+    assert (Hnc : ms s <> Connecting) by (destruct Hm as [->|[->| ->]]; discriminate).
+    assert (Hnw : ms s <> Waiting) by (destruct Hm as [->|[->| ->]]; discriminate).
+    destruct HA as [[E _] | [_ [Hp Hq]]]; [congruence|]. repeat split; auto.
+    - destruct (timer s); auto. exfalso. apply Hnw, HT1. discriminate.
+    - intros Ht Hd. destruct (HU Ht) as (_ & _ & HC). unfold cshape in HC.
+      destruct Hm as [E|[E|E]]; rewrite E in HC; auto. congruence.
   Qed.
 End P.
 
